@@ -42,7 +42,9 @@ def gen(rng, tier, idx):
         return {'op': 'sweep', 'block': idx * step, 'use_data': idx % 2 == 0, 'kcfg': {}}
     op = OPS[idx % len(OPS)]
     big = rng.random() < 0.2
-    big_shape = rng.choice([(25, 14), (25, 14), (3, 240), (240, 3), (12, 40), (2, 130)])
+    big_shape = rng.choice([(25, 14), (25, 14), (3, 240), (240, 3), (12, 40), (2, 130), (260, 4), (4, 260)])
+    if tier == 'thorough' and rng.random() < 0.03:
+        big, big_shape = True, rng.choice([(65600, 2), (2, 65600)])
     m = {'seed': rng.randrange(2 ** 31), 'n_rows': rng.choice([1, 2, 3, 4, 6, 9, 19]) if not big else big_shape[0],
          'n_cols': rng.choice([1, 2, 3, 4, 7, 12]) if not big else big_shape[1],
          'density': rng.choice([0.0, 0.05, 0.2, 0.5, 1.0]) if not big else 0.7,
